@@ -150,4 +150,11 @@ CHECKS = {
         "note": "Trusted: TLC, re.fullmatch for keyword classification. Known findings (D11): inline texts containing '.', newline/tab, or equal to a rule/reserved name do not build; keywords with a non-word first or "
                 "last character use \\b which is not the stated adjacency rule. Token choice between keyword and regex terminals is covered by C07 (kw kind).",
     },
+    "C20": {
+        "engine": "tlc-trace", "design_ref": "DESIGN.md 3.9 Imports, 7 C20",
+        "technique": "Imports.tla reference (first-visit prefixes, FQNs, alias following, overrides, each file once) + CFG.tla sentencehood over the flattened productions + Actions.tla vs the loaded grammar's productions, acceptance and results (ImportCheck.tla), TLC",
+        "level": "For every generated file set the productions and terminals of the grammar loaded by Grammar.from_file equal the flattened grammar computed in TLA+ (helper names aside), "
+                 "acceptance of every explored token sequence equals sentencehood in the flattened grammar, and every forest tree's result equals the documented meaning.",
+        "note": "Trusted: TLC, projection of productions/terminals by fqn. Bounded: <= 4 files, 10 graph shapes, inputs <= 8 tokens. Known finding D12: an override combined with more than one import path to the overridden file.",
+    },
 }
